@@ -226,6 +226,7 @@ pub fn base_cfg(rng: &mut SRng, quick: bool, want_byz: bool, want_crash: bool) -
         slow_diss: None,
         crash_after_first_block: None,
         late_diss: None,
+        laggard: None,
         label: String::new(),
     }
 }
@@ -426,6 +427,16 @@ pub fn judge_all(ctx: &mut Ctx, focus: &str, cfg: &RunCfg, out: &RunOut) {
     for v in &out.dead_tasks {
         cf.push(Finding { prop: "C10", sig: "a correct node's run() task ended".into(), detail: format!("node {v}") });
     }
+    if let Some((fs, sent, missing)) = &out.laggard {
+        ctx.count("laggard-scenario:executions");
+        ctx.count_n("laggard-scenario:messages-fed", *sent as u64);
+        if *fs > 0 {
+            ctx.distinct(format!("laggard:{}:n{}", if cfg.laggard.is_some_and(|l| l.3) { "votes-only" } else { "certificates-first" }, cfg.ep.n()));
+        }
+        if !missing.is_empty() {
+            cf.push(Finding { prop: "C03", sig: "a node holds no certificate although the votes delivered to it reach the threshold (lagging node, slots it still retains)".into(), detail: format!("fed finalization of slot {fs}; missing {:?}", missing) });
+        }
+    }
     if !out.oversize.is_empty() {
         cf.push(Finding { prop: "C19", sig: "a correct node emitted a datagram above 1500 bytes".into(), detail: format!("{:?}", out.oversize.first()) });
     }
@@ -574,6 +585,41 @@ pub fn run_c05_wire(ctx: &mut Ctx, runs_q: u64, runs_t: u64) {
     let _: Option<(Bid, VK)> = None;
 }
 
+/// Lagging-node scenario on top of a fault-free cluster: one node's all-to-all traffic is held for a few
+/// seconds and the adversary feeds it first the finalization of the most recent slot and then the earlier
+/// slots' certificates in random order, or only their votes.
+pub fn laggard_cfg(rng: &mut SRng, cfg: &mut RunCfg, votes_only: bool) {
+    let n = cfg.ep.n();
+    let node = rng.random_range(0..n);
+    cfg.byz.retain(|b| *b != node);
+    cfg.crashes.retain(|c| c.0 != node);
+    let from = Duration::from_millis(rng.random_range(2000..4000));
+    let until = from + Duration::from_millis(rng.random_range(2500..5000));
+    cfg.laggard = Some((node, from, until, votes_only));
+    cfg.t_stable = Duration::ZERO;
+    cfg.chaos = chaos_profiles()[0].clone();
+    cfg.delta = Duration::from_millis(*[10u64, 60].choose(rng).unwrap());
+    cfg.duration = until + Duration::from_secs(8);
+}
+
+/// C03 at node level: a node assembles (and holds) every certificate that the votes delivered to it justify,
+/// also when it lags and is fed the most recent finalization before the earlier slots' votes.
+pub fn run_c03_nodes(ctx: &mut Ctx, runs_q: u64, runs_t: u64) {
+    let rt = tokio::runtime::Builder::new_current_thread().enable_all().start_paused(true).build().expect("rt");
+    let mut rng = ctx.rng("c03-nodes");
+    let runs = ctx.iters(runs_q, runs_t);
+    for i in 0..runs {
+        let mut cfg = base_cfg(&mut rng, ctx.quick(), false, false);
+        cfg.byz.clear();
+        cfg.crashes.clear();
+        cfg.tx_rate = 0;
+        laggard_cfg(&mut rng, &mut cfg, i % 3 != 2);
+        cfg.label = "c03-laggard".into();
+        let out = rt.block_on(tokio::task::unconstrained(execute(&cfg, &mut rng)));
+        judge_all(ctx, "C03", &cfg, &out);
+    }
+}
+
 /// C16 at node level: in fault-free executions every shred a leader sends reaches every other validator,
 /// through exactly one relay broadcast (the forwarding decision sits in the node's message loop, not in
 /// the disseminator alone).
@@ -670,6 +716,13 @@ pub fn run_c10(ctx: &mut Ctx) -> Result<(), String> {
             classes = (0..3).map(|j| all[(k + j) % all.len()]).collect();
         }
         cfg.hostile = Some((Duration::from_secs(2), hostile_end, classes));
+        // every fifth run has a lagging node that is fed certificates in an adversarial order
+        if i % 5 == 4 || (i as usize + ctx.shard) % 8 == 3 {
+            let votes_only = rng.random_bool(0.3);
+            laggard_cfg(&mut rng, &mut cfg, votes_only);
+            cfg.hostile = None;
+            cfg.duration = cfg.duration.max(Duration::from_secs(16));
+        }
         // a quarter of the runs start with an asynchronous period (lagging leaders, late finalizations)
         if i % 4 == 1 {
             let mut ch = chaos_profiles();
